@@ -445,6 +445,10 @@ func (c *DnsCache) prepackResponseBeforeStore(qname string, qtype uint16, ttl ui
 	c.packedResponse.Store(&packed)
 	c.packedResponseTTL.Store(ttl)
 	c.packedResponseCreatedAt.Store(now.UnixNano())
+	// Cache deadline as UnixNano for fast comparison (as PrepackResponse does). Without it the
+	// stale-while-revalidate window of entries inserted through the normal path is measured
+	// from the zero time and GetStaleResponse never serves them.
+	c.deadlineNano.Store(c.Deadline.UnixNano())
 	return nil
 }
 
